@@ -112,6 +112,12 @@ func userActivity(b *board.Board, stop <-chan struct{}, seed int64) {
 
 // analyzeWith is analyze with user-side activity on a fork of the engine's board while the search runs.
 func analyzeWith(ctx context.Context, e *engine.Engine, h gen.Hist, depth int, during func(b *board.Board, stop <-chan struct{})) ([]searchResult, string, error) {
+	return analyzeHook(ctx, e, h, depth, during, nil)
+}
+
+// analyzeHook is analyzeWith with a callback run between setting the game up and starting the analysis
+// (what other engines of the process do in that gap must not matter).
+func analyzeHook(ctx context.Context, e *engine.Engine, h gen.Hist, depth int, during func(b *board.Board, stop <-chan struct{}), afterSetup func()) ([]searchResult, string, error) {
 	if err := e.Reset(ctx, h.Start.FEN()); err != nil {
 		return nil, "", err
 	}
@@ -119,6 +125,9 @@ func analyzeWith(ctx context.Context, e *engine.Engine, h gen.Hist, depth int, d
 		if err := e.Move(ctx, m.String()); err != nil {
 			return nil, "", err
 		}
+	}
+	if afterSetup != nil {
+		afterSetup()
 	}
 	posBefore := e.Position()
 	snapBefore := adapt.TakeSnap(e.Board())
@@ -192,7 +201,7 @@ func streamDiff(a, b []searchResult, nodes bool) string {
 func detour(r *rand.Rand, h gen.Hist) (gen.Hist, bool) {
 	p := h.Final()
 	key := p.Key()
-	for try := 0; try < 20; try++ {
+	for try := 0; try < 60; try++ {
 		var ms []ref.Move
 		q := p
 		okSeq := true
@@ -200,7 +209,7 @@ func detour(r *rand.Rand, h gen.Hist) (gen.Hist, bool) {
 			lm := q.LegalMoves()
 			var cand []ref.Move
 			for _, m := range lm {
-				if m.Kind != ref.KNormal || m.Piece == ref.King || m.Piece == ref.Rook {
+				if m.Kind != ref.KNormal {
 					continue
 				}
 				if k >= 2 && !(m.From == ms[k-2].To && m.To == ms[k-2].From) {
@@ -395,6 +404,37 @@ func runC18(c *fw.Ctx, cs fw.Case) {
 					}
 				}
 			}
+			// the same position with no history at all (set up from its FEN: nothing "has moved") analysed first, then
+			// the game that leads to it on the same engine; short games from the initial position, odd and even lengths
+			for j := 0; j < 2; j++ {
+				g := gen.Hist{Start: gen.Starts()[0]}
+				q := g.Start
+				for k, n := 0, 2+r.Intn(9); k < n; k++ {
+					lm := q.LegalMoves()
+					if len(lm) == 0 {
+						break
+					}
+					m := lm[r.Intn(len(lm))]
+					g.Moves = append(g.Moves, m)
+					q = q.Apply(m)
+				}
+				if len(q.LegalMoves()) == 0 {
+					continue
+				}
+				bare := gen.Hist{Start: q}
+				bare.Start.Half, bare.Start.Full = g.Final().Half, g.Final().Full
+				d2 := min(depth, 2)
+				se := rc.newEngine(ctx, engine.Options{Depth: uint(d2)}, 0, nil)
+				analyze(ctx, se, bare, d2)
+				onUsed, _, err1 := analyze(ctx, se, g, d2)
+				onFresh, _, err2 := analyze(ctx, rc.newEngine(ctx, engine.Options{Depth: uint(d2)}, 0, nil), g, d2)
+				c.Count("bare_then_game_checks", 1)
+				if err1 == nil && err2 == nil {
+					if d := streamDiff(onFresh, onUsed, true); d != "" {
+						c.Violate("determinism:history-cache", "analysis of a game differs between a fresh engine and one that had just analysed the game's final position set up from its FEN: %s: engine %s depth %d %s", d, rc.name, d2, histDesc(g))
+					}
+				}
+			}
 			// different zobrist seed
 			other, _, err := analyze(ctx, rc.newEngine(ctx, engine.Options{Depth: uint(depth)}, 12345+cs.Seed, nil), h, depth)
 			c.Count("engine_seed_checks", 1)
@@ -410,6 +450,21 @@ func runC18(c *fw.Ctx, cs fw.Case) {
 			if err1 == nil && err2 == nil {
 				if d := streamDiff(n1, n2, true); d != "" {
 					c.Violate("determinism:noise-seed", "two engines with equal seed and history differ with noise on: %s: %s", d, what)
+				}
+			}
+			// noise on, and another noisy engine set up (and searching) between this engine's set-up and its
+			// analysis: the noise stream belongs to the engine, so the result is still the one of the seed
+			if err1 == nil {
+				other := rc.newEngine(ctx, engine.Options{Depth: uint(depth), Noise: 80}, 99+int64(i), nil)
+				var oerr error
+				n3, _, err3 := analyzeHook(ctx, rc.newEngine(ctx, engine.Options{Depth: uint(depth), Noise: 80}, 7, nil), h, depth, nil, func() {
+					_, _, oerr = analyze(ctx, other, h, min(depth, 2))
+				})
+				c.Count("noise_interleaved_checks", 1)
+				if err3 == nil && oerr == nil {
+					if d := streamDiff(n1, n3, true); d != "" {
+						c.Violate("determinism:noise-other-engine", "with noise on, an engine's analysis differs when another noisy engine (other seed) is set up and searches between its set-up and its analysis: %s: %s", d, what)
+					}
 				}
 			}
 			// fresh hash table: same seed => identical; (scores must also equal the table-less ones for position-determined engines)
@@ -668,7 +723,7 @@ func init() {
 			return l
 		},
 		Floors: func(string) map[string]int64 {
-			return map[string]int64{"repeat_checks": 500, "seed_checks": 1000, "engine_runs": 60, "noise_checks": 60, "concurrent_checks": 15, "binary_checks": 15, "api_sessions": 80, "api_state_checks": 2000, "api_analyses": 200, "api_move_during_analysis": 30, "api_takebacks": 50, "api_reset_to_live_fen": 15, "api_user_forks": 50, "api_concurrent_moves": 50, "manygames_checks": 60, "manygames_resets": 20000}
+			return map[string]int64{"repeat_checks": 500, "seed_checks": 1000, "engine_runs": 60, "noise_checks": 60, "noise_interleaved_checks": 60, "bare_then_game_checks": 100, "concurrent_checks": 15, "binary_checks": 15, "api_sessions": 80, "api_state_checks": 2000, "api_analyses": 200, "api_move_during_analysis": 30, "api_takebacks": 50, "api_reset_to_live_fen": 15, "api_user_forks": 50, "api_concurrent_moves": 50, "manygames_checks": 60, "manygames_resets": 20000}
 		},
 		Run: runC18,
 	})
